@@ -5,6 +5,7 @@ import (
 	"os"
 	"path/filepath"
 	"regexp"
+	"sort"
 	"strings"
 	"text/template/parse"
 )
@@ -109,6 +110,7 @@ func (t *Tmpl) TreeNames() []string {
 	for k := range t.Trees {
 		out = append(out, k)
 	}
+	sort.Strings(out)
 	return out
 }
 
